@@ -26,7 +26,7 @@ RULE = ("Hypothesis-generated command histories over one project (experiments wi
         "which one experiment fails while another is recorded. Distinct = SHA-1 of case JSON.")
 ASSUMPTIONS = ["process-kill semantics at Python-line granularity; power loss is out of scope",
                "the order in which a directory's entries are listed is chosen by the case (fs order, sorted, reversed, seeded permutations)"]
-ESSENTIAL = ["touched_but_unchanged", "kill_during_run_after_spawn", "kill_during_restore_after_copy", "kill_during_gc", "kill_during_clean_partway", "kill_inside_shutil", "nonzero_exit_not_recorded",
+ESSENTIAL = ["touched_but_unchanged", "dirty_only_in_index", "kill_during_run_after_spawn", "kill_during_restore_after_copy", "kill_during_gc", "kill_during_clean_partway", "kill_inside_shutil", "nonzero_exit_not_recorded",
              "dirty_flag_true", "head_moved", "restore_after_wipe", "args_and_options_recorded", "kill_between_exit_and_record"]
 TECHNIQUE = "stateful property testing (Hypothesis-generated command histories) with kill-point fault injection (sys.settrace + os._exit) and an on-disk invariant"
 LEVEL_TEXT = ("Histories are generated; kill points are drawn per command and enumerated for fixed scenarios. The invariant is evaluated on "
@@ -76,7 +76,7 @@ def _case(draw, tier):
             tl = draw(st.sampled_from([0, 6, 20]))
             s["tape"] = draw(st.lists(st.sampled_from([0] * 20 + list(range(1, 16))), min_size=tl, max_size=tl))
         elif op == "git":
-            s["action"] = draw(st.sampled_from(["commit", "dirty", "clean", "checkout_prev", "touch", "touch"]))
+            s["action"] = draw(st.sampled_from(["commit", "dirty", "dirty_staged", "clean", "checkout_prev", "touch", "touch"]))
             s["kill"] = None
         elif op == "archive":
             s["latest"] = draw(st.booleans())
@@ -84,7 +84,7 @@ def _case(draw, tier):
     runs = [j for j, s in enumerate(steps) if s["op"] == "run"]
     if g["git"] == "git" and runs and draw(st.sampled_from(range(4))) == 0:
         # a touched-but-unchanged tracked file right before a run
-        steps.insert(draw(st.sampled_from(runs)), {"op": "git", "action": "touch", "kill": None})
+        steps.insert(draw(st.sampled_from(runs)), {"op": "git", "action": draw(st.sampled_from(["touch", "dirty_staged"])), "kill": None})
     g["steps"] = steps
     return g
 
@@ -207,8 +207,15 @@ class World:
             with open(os.path.join(self.root, "tracked.txt"), "a") as f:
                 f.write("uncommitted\n")
             self.dirty = True
+        elif action == "dirty_staged":
+            # an uncommitted change that is completely staged (work tree == index != HEAD)
+            with open(os.path.join(self.root, "tracked.txt"), "a") as f:
+                f.write("staged\n")
+            gitgen.git(self.root, "add", "tracked.txt")
+            self.dirty = True
+            self.labels.add("dirty_only_in_index")
         elif action == "clean":
-            gitgen.git(self.root, "checkout", "-q", "--", "tracked.txt")
+            gitgen.git(self.root, "reset", "-q", "--hard", "HEAD")
             self.dirty = False
         elif action == "touch":
             # same content, new modification time (an editor save without changes, cp -p, rsync): not a change
